@@ -167,22 +167,43 @@ theorem getA_mem {β : Type} {k : Str} {v : β} {m : List (Str × β)} (h : getA
     · simp [getA, h0] at h; simp [h0, h]
     · simp [getA, h0] at h; simp [ih h]
 
-/-- A map on which a second normalisation finds nothing to do: every value is a fixed point of the
-per-key rewriting, no convertible `--set-xmark` is left, and a surviving `-m` still differs from
-the (normalised) protocol.  Decidable. -/
-def Stable (q : Pairs) : Prop :=
-  (∀ kv ∈ q, normVal kv.1 kv.2 = kv.2) ∧ xConv q = none ∧ mDrop q = false
+/-- A map on which a second normalisation finds nothing to do: every value (looked up by key) is a
+fixed point of the per-key rewriting, no convertible `--set-xmark` is left, and a surviving `-m` still
+differs from the (normalised) protocol.  Decidable. -/
+def StableB (q : Pairs) : Bool :=
+  (keysA q).all (fun k => match getA k q with | some v => normVal k v == v | none => true) &&
+  (xConv q).isNone && !mDrop q
+
+def Stable (q : Pairs) : Prop := StableB q = true
 
 instance (q : Pairs) : Decidable (Stable q) := by unfold Stable; exact inferInstance
 
+theorem stable_iff (q : Pairs) :
+    Stable q ↔ (∀ k v, getA k q = some v → normVal k v = v) ∧ xConv q = none ∧ mDrop q = false := by
+  unfold Stable StableB
+  simp only [Bool.and_eq_true, List.all_eq_true, Option.isNone_iff_eq_none, Bool.not_eq_eq_eq_not, Bool.not_true]
+  constructor
+  · rintro ⟨⟨h1, h2⟩, h3⟩
+    refine ⟨?_, h2, h3⟩
+    intro k v hg
+    have hk : k ∈ keysA q := (mem_keysA k q).mpr (by simp [hasA, hg])
+    have := h1 k hk
+    simpa [hg] using this
+  · rintro ⟨h1, h2, h3⟩
+    refine ⟨⟨?_, h2⟩, h3⟩
+    intro k _
+    cases hg : getA k q with
+    | none => rfl
+    | some v => simpa using h1 k v hg
+
 theorem normalize_of_stable (q : Pairs) (h : Stable q) : PairsEq (normalize q) q := by
   intro k
-  obtain ⟨hv, hx, hm⟩ := h
+  obtain ⟨hv, hx, hm⟩ := (stable_iff q).mp h
   rw [getA_normalize, hx]
   simp only [hm, Bool.false_eq_true, and_false, ↓reduceIte]
   cases hq : getA k q with
   | none => rfl
-  | some v => simp [hv (k, v) (getA_mem hq)]
+  | some v => simp [hv k v hq]
 
 /-! ### the option loop of the parser on a line built from options -/
 
